@@ -44,6 +44,18 @@ REQUIRED = [
     "C17_share_only_equal",
     "C17_globals_unchanged",
     "C17_unguarded_external_variables_rewrites_global",
+    "C17_preserved_up_to_record_length",
+    "C17_axis_dimension_has_axis_length",
+    "C17_weakened_pinned_reuse_grows_dimension",
+    "C17_weakened_pinned_reuse_changes_old_footprint",
+    "C17_registry_must_agree",
+    "C17_shapes_must_fit",
+    "C17_old_dimension_name_used_as_it_is",
+    "C17_dry_run_registry_not_the_dataset",
+    "C17_scalar_parameter_written_again",
+    "C17_monotone_from_reader",
+    "C17_monotone_sequence_from_reader",
+    "C17_unpatched_dry_run_defeats_size_test",
 ]
 BUDGET = {"quick": 80, "thorough": 2400}
 QUICK_JOBS = 8
@@ -55,21 +67,41 @@ RULE = (
     "perturbed, constructs deleted); independent example/random field; Domain} x edits {pinned ncvar / coordinate ncvar / "
     "dimension names drawn from names present in the dataset, description-of-file-contents and other properties agreeing "
     "or not with the dataset's globals, nc_set_global_attribute with / without value, _FillValue / missing_value, "
-    "featureType, netCDF groups} x mode {'a','r+'}. non-trivial = E could be written and read and at least one append "
+    "featureType, netCDF groups} x mode {'a','r+'}.  40 % of the random scenarios are of the *dimension family*: fields built axis "
+    "by axis (1-3 axes: size, netCDF dimension name or none, unlimited or not, dimension coordinate present / absent / named after "
+    "the dimension, bounds with 2 or 4 vertices, numeric or string 1-d auxiliary coordinate; optional size-one axis outside the data "
+    "with dimension coordinate and/or 2-d auxiliary coordinate; optional parametric vertical coordinate with domain ancillary and "
+    "scalar parameter), appended fields derived from an earlier one by changing each attribute of each axis independently "
+    "(dimension name: the same / the name of a variable / <name>_1 / that of another dimension / new / none; size same or other; "
+    "unlimitedness kept or flipped; coordinate kept, changed or dropped; auxiliary equal or not), 1-3 appends reusing the same "
+    "variable names (suffixes _1, _2 left by earlier appends).  non-trivial = E could be written and read and at least one append "
     "was attempted; distinct = distinct scenario specification"
 )
 ASSUMPTIONS = [
     "contents of variables are abstract identities (fingerprint classes); data types, HDF5 storage, chunking and bytes on "
     "disk are outside the model and are covered by the oracle's netCDF4 view (sha of raw data, dtype) on every case",
-    "the model covers fields/domains without compression by convention, geometries, scalar "
-    "formula-term parameters, UGRID and groups (groups are refused in append mode); scenarios with those features "
-    "are judged by the oracle alone (tag unmodelled)",
+    "the model covers fields/domains without compression by convention, geometries, UGRID and groups (groups are refused "
+    "in append mode); scenarios with those features are judged by the oracle alone (tag unmodelled)",
+    "netCDF semantics assumed by the model for data written along dimensions (checked against netCDF4-python 1.7.4): an array "
+    "longer than an unlimited dimension makes the dimension longer for every variable on it, a shorter one leaves the new variable "
+    "with the dimension's length, an extent that differs from a fixed-size dimension raises",
+    "C17_monotone needs the dimension tables left by the dry run to agree with the dataset on the lengths of its unlimited "
+    "dimensions (RegAgrees; refuted without it) and the shapes of the appended constructs to fit their axes (FieldReq.wf); with the "
+    "pending patch RegAgrees is derived (C17_monotone_from_reader) from: every field read back reports the dataset's length "
+    "for each dimension name it carries (FieldReq.faithful).  These are statements about cfdm.read, which is not modelled: the "
+    "driver evaluates them on every sampled case (C17.hyp, tags hyp:*), and the model run on abstract(cfdm.read(E)) predicts the "
+    "changed lengths (L[...]), which are compared",
     "the reader is abstract in the theorems: any function of the read footprint (the variable, everything reachable from it "
     "through reference attributes and dimension names, and the global attributes); cfdm.read itself is sampled (stream 2)",
     "the request given to append uses the format of the dataset; an appended batch that cannot be written on its own "
     "in that format is not charged to append (its refusal may still not damage the dataset)",
-    "the model is the code after the proposed patches fixes/C17-*.patch; on the unpatched tree the defects surface as "
-    "known findings",
+    "the model is /repo HEAD (ad9ad50: incl. d714c80 unnamed dimension coordinate through _netcdf_name, 52d4f19 two axes with equal "
+    "dimension coordinates get a dimension each; 8953e79 concerns DSG sample dimensions, outside the model) plus the pending proposed "
+    "patch fixes/C17-append-dry-run-names.patch; on the tree without it the defect surfaces as a known finding and the implementation "
+    "agrees with the model variant that lacks the patch",
+    "an append that fails with the library-level message 'NetCDF: HDF error' is observed a second time and the first "
+    "observation is kept only if the error is still there (seen once per ~1000 scenarios on the overloaded machine, never "
+    "reproducible; a reproducible one is judged like any other failure)",
     "old fields are compared with netCDF names and nc_global_attributes; new fields modulo netCDF names (a pinned name that "
     "is in use is legitimately changed) against the mode-'w' round trip of the same construct (C01 precondition)",
 ]
@@ -92,8 +124,65 @@ def mk_case(spec, tags=()):
     return Case("C17.seq", spec, line=None, key=key, nontrivial=True, tags=tuple(tags))
 
 
+DIM_SHARE = 0.4  # share of the dimension family (fields built axis by axis) among the random scenarios
+
+
+def _dim_tags(spec):
+    """Per appended axis of the dimension family: how it relates to the axes met earlier in the scenario."""
+    t = set()
+    seen = []  # axes of the fields that are in the dataset when the batch arrives
+    groups = [spec["s0"]] + list(spec["batches"])
+    for bi, b in enumerate(groups):
+        cur = []
+        for f in b:
+            for a in f.get("mk", {}).get("axes", ()):
+                cur.append(a)
+                if bi == 0:
+                    continue
+                kind = ("dc" if a.get("dc") else "nodc") + ("+unlim" if a.get("unlim") else "")
+                t.add("axis:" + kind)
+                if a.get("dc") and a["dc"].get("anon"):
+                    t.add("dc:named-after-dimension")
+                if a.get("dc") and a["dc"].get("bounds"):
+                    t.add("bounds:" + ("4" if a["dc"]["bounds"] == 4 else "2"))
+                if a.get("aux") and a["aux"].get("str"):
+                    t.add("aux:string")
+                same = [o for o in seen if o.get("ncdim") is not None and o.get("ncdim") == a.get("ncdim")]
+                if same:
+                    o = same[-1]
+                    t.add("dimname:in-dataset:" + ("same-size" if any(x["n"] == a["n"] for x in same) else "other-size"))
+                    if not a.get("dc") and a.get("unlim") and any(x.get("unlim") and not x.get("dc") and x["n"] != a["n"] for x in same):
+                        t.add("record-axis:other-length")
+                    if any(bool(x.get("unlim")) != bool(a.get("unlim")) for x in same):
+                        t.add("dimname:in-dataset:other-unlimitedness")
+                elif a.get("ncdim") is None:
+                    t.add("dimname:none")
+                elif a["ncdim"].endswith("_1"):
+                    t.add("dimname:suffixed")
+                else:
+                    t.add("dimname:new")
+        seen += cur
+    for b in groups[1:]:
+        for f in b:
+            x = f.get("mk", {}).get("extra")
+            if x:
+                t.add("size-one-axis:" + ("dc" if x.get("dc") else "nodc") + ("+aux2d" if x.get("aux2") is not None else ""))
+    for b in groups[1:]:
+        for f in b:
+            pm = f.get("mk", {}).get("param")
+            if pm:
+                t.add("parametric:" + ("scalar-parameter" if pm.get("ptop") is not None else "ancillaries-only"))
+    names = [f.get("mk", {}).get("ncvar") for b in groups for f in b]
+    if any(n is not None and names.count(n) >= 3 for n in names):
+        t.add("ncvar:three-times")
+    return sorted(t)
+
+
 def _tags(spec):
     t = ["fmt:" + spec.get("fmt", "NETCDF4"), f"appends:{len(spec['batches'])}"]
+    if spec.get("family") == "dim":
+        t.append("family:dim")
+        t += _dim_tags(spec)
     mods = [m[0] for b in spec["batches"] for f in b for m in f.get("mods", ())]
     for name in ("extmsr", "groups", "ft", "domain", "fill", "global", "coordncvar", "dimname", "perturb", "delbounds"):
         if name in mods:
@@ -124,20 +213,80 @@ FIXED = [
     {"fmt": "NETCDF4", "s0": [{"ex": 0, "mods": [["extmsr", "areacella", False]]}],
      "batches": [[{"from": [0, 0], "mods": [["newdata", 8], ["ncvar", "ta"]]}], [{"ex": 0, "mods": [["ncvar", "ua"], ["extmsr", "areacello", True]]}]], "external": True},
     {"fmt": "NETCDF3_CLASSIC", "s0": [{"ex": 0}, {"ex": 2}], "batches": [[{"from": [0, 1], "mods": [["newdata", 4], ["delbounds", 1]]}]]},
+    # record axes (unlimited, named, no coordinate variable): same length, longer, shorter, then the same names a third time
+    {"fmt": "NETCDF4", "family": "dim",
+     "s0": [{"mk": {"ncvar": "ta", "seed": 1, "axes": [{"n": 4, "ncdim": "obs", "unlim": True}, {"n": 3, "ncdim": "lat", "dc": {"v": 0, "k": 1, "ncvar": "lat"}}]}}],
+     "batches": [[{"mk": {"ncvar": "ta", "seed": 2, "axes": [{"n": 4, "ncdim": "obs", "unlim": True}, {"n": 3, "ncdim": "lat", "dc": {"v": 0, "k": 1, "ncvar": "lat"}}]}}],
+                 [{"mk": {"ncvar": "ta", "seed": 3, "axes": [{"n": 6, "ncdim": "obs", "unlim": True}, {"n": 3, "ncdim": "lat", "dc": {"v": 0, "k": 1, "ncvar": "lat"}}]}}],
+                 [{"mk": {"ncvar": "ta", "seed": 4, "axes": [{"n": 2, "ncdim": "obs", "unlim": True}, {"n": 3, "ncdim": "lat", "dc": {"v": 1, "k": 1, "ncvar": "lat"}}]}}]]},
+    # the refusal predicate looks at every construct of the batch: the offending one is not the first
+    {"fmt": "NETCDF4", "s0": [{"ex": 0}],
+     "batches": [[{"from": [0, 0], "mods": [["newdata", 11], ["ncvar", "ta"]]}, {"ex": 5, "mods": [["groups", ["forecast"]]]}],
+                 [{"from": [0, 0], "mods": [["newdata", 12], ["ncvar", "ua"]]}, {"ex": 2, "mods": [["ft", "timeSeries"]]}]]},
+    # role dimensions: bounds with 4 then 2 then 4 vertices, string-length dimensions of 5, 5 and 7 characters (char storage)
+    {"fmt": "NETCDF3_CLASSIC", "family": "dim",
+     "s0": [{"mk": {"ncvar": "ta", "seed": 1, "axes": [{"n": 3, "ncdim": "obs", "dc": {"v": 0, "k": 0, "ncvar": "time", "bounds": 4}, "aux": {"v": 0, "ncvar": "label", "str": 5}}]}}],
+     "batches": [[{"mk": {"ncvar": "tb", "seed": 2, "axes": [{"n": 3, "ncdim": "obs", "dc": {"v": 1, "k": 0, "ncvar": "time", "bounds": 2}, "aux": {"v": 1, "ncvar": "label", "str": 5}}]}}],
+                 [{"mk": {"ncvar": "tc", "seed": 3, "axes": [{"n": 3, "ncdim": "obs", "dc": {"v": 2, "k": 0, "ncvar": "time", "bounds": 4}, "aux": {"v": 2, "ncvar": "label", "str": 7}}]}}]]},
+    # a dimension coordinate named after the netCDF dimension of its axis, which the dataset has
+    {"fmt": "NETCDF4", "family": "dim",
+     "s0": [{"mk": {"ncvar": "ta", "seed": 1, "axes": [{"n": 4, "ncdim": "obs", "dc": {"v": 0, "k": 0, "ncvar": None, "anon": True}}]}}],
+     "batches": [[{"mk": {"ncvar": "tb", "seed": 2, "axes": [{"n": 4, "ncdim": "obs", "dc": {"v": 1, "k": 0, "ncvar": None, "anon": True}}]}}]]},
 ]
+
+
+def _claim_fixed(tier, m):
+    """The fixed scenarios of this worker.  The workers of one run share the list out through claim files in a
+    directory keyed by the parent process, so that every fixed scenario is run (once) in every run whatever the
+    random offsets; None if that is not possible."""
+    import tempfile
+    try:
+        ppid = os.getppid()
+        with open(f"/proc/{ppid}/stat") as f:
+            start = f.read().rsplit(")", 1)[1].split()[19]
+        d = os.path.join(tempfile.gettempdir(), f"c17_fixed_{ppid}_{start}_{tier}")
+        os.makedirs(d, exist_ok=True)
+        got = []
+        for i in range(len(FIXED)):
+            if len(got) >= m:
+                break
+            try:
+                os.close(os.open(os.path.join(d, str(i)), os.O_CREAT | os.O_EXCL | os.O_WRONLY))
+                got.append(i)
+            except FileExistsError:
+                pass
+
+        def release():
+            for i in got:
+                try:
+                    os.unlink(os.path.join(d, str(i)))
+                except OSError:
+                    pass
+            try:
+                os.rmdir(d)
+            except OSError:
+                pass
+
+        atexit.register(release)
+        return got
+    except Exception:
+        return None
 
 
 def gen(rng, tier, n):
     os.environ["VERIF_TIER_C17"] = tier
-    if rng.random() < 2.0:  # every worker: a slice of the fixed scenarios first
-        pass
+    # every worker: a slice of the fixed scenarios first
     k = rng.randrange(len(FIXED))
-    m = 2 if tier == "quick" else 4
-    for i in range(m):
-        spec = FIXED[(k + i) % len(FIXED)]
+    m = 3 if tier == "quick" else 2   # 8 resp. 16 workers: every fixed scenario is claimed
+    mine = _claim_fixed(tier, m)
+    if mine is None:
+        mine = [(k + i) % len(FIXED) for i in range(min(m, 4))]
+    m = len(mine)
+    for i in mine:
+        spec = FIXED[i]
         yield mk_case(spec, _tags(spec) + ["fixed"])
     for _ in range(max(0, n - m)):
-        spec = G.random_scenario(rng, tier)
+        spec = G.dimension_scenario(rng, tier) if rng.random() < DIM_SHARE else G.random_scenario(rng, tier)
         yield mk_case(spec, _tags(spec))
 
 
@@ -152,20 +301,30 @@ REF_ATTRS = ("coordinates", "bounds", "climatology", "formula_terms", "grid_mapp
              "cell_methods", "dimensions")
 
 
+# whether a new variable carries these is the decision of _write_global_attributes (names compared, not values)
+DESCR_ATTRS = ("comment", "history", "institution", "references", "source", "title")
+
+
 def _show_added(v0, v1):
     nd = sorted((k, d) for k, d in v1["d"].items() if k not in v0["d"])
     nv = sorted((k, v) for k, v in v1["v"].items() if k not in v0["v"])
     D = ";".join(f"{k},{d[0]},{1 if d[1] else 0}" for k, d in nd)
     V = []
     for k, v in nv:
-        at = sorted((a, x) for a, x in v["attrs"].items() if a in REF_ATTRS)
+        at = sorted([(a, x) for a, x in v["attrs"].items() if a in REF_ATTRS] + [(a, "*") for a in v["attrs"] if a in DESCR_ATTRS])
         V.append(f"{k}({','.join(v['dims'])})({'&'.join(f'{a}={x}' for a, x in at)})")
     same = "same" if v1["g"] == v0["g"] else "changed"
-    return f"D[{D}] V[{';'.join(V)}] G={same}"
+    # dimensions of the dataset whose length is no longer what it was
+    L = sorted(f"{k}:{d[0]}>{v1['d'][k][0] if k in v1['d'] else 'gone'}" for k, d in v0["d"].items() if k not in v1["d"] or v1["d"][k][0] != d[0])
+    return f"D[{D}] V[{';'.join(V)}] G={same} L[{';'.join(L)}]"
 
 
 _T0 = [None]
 SOFT_LIMIT = {"quick": 120, "thorough": 1200}
+
+
+def _io_error(obs):
+    return any("HDF error" in str(st.get("message", "")) for st in obs.get("steps", ()))
 
 
 def impl(case):
@@ -181,6 +340,13 @@ def impl(case):
         _OBS[case.key] = dict(e="skipped")
         return "skipped"
     obs = OBS.run_scenario(spec)
+    if _io_error(obs):
+        # "NetCDF: HDF error" is the C library failing at the I/O level (seen when the machine is overloaded; not
+        # reproducible): observe once more, and keep the first observation only if the error is still there
+        again = OBS.run_scenario(spec)
+        case.tags = case.tags + ("retried:hdf-io-error",)
+        if not _io_error(again):
+            obs = again
     _OBS[case.key] = obs
     if "harness_exc" in obs:
         # the scenario could not be built or observed (generator's edit not applicable, time-out): no verdict
@@ -215,6 +381,16 @@ def impl(case):
         j = dict(nc4=spec.get("fmt", "NETCDF4") == "NETCDF4", steps=[st["abs"] for st in obs["steps"]])
         js = json.dumps(j, separators=(",", ":")).replace(" ", "\\u0020")
         case.line = f"C17.seq fix=any j={js}"
+        # the decidable hypotheses of C17_monotone / C17_monotone_from_reader, evaluated by the model on the sampled
+        # inputs (informative: counted in the input distribution; a hypothesis that does not hold is not a violation)
+        try:
+            hyp = fw.model_run([f"C17.hyp j={js}"])[0]
+            flags = [dict(kv.split("=") for kv in st.split()) for st in hyp.split(" || ")] if hyp != "bad-op" else []
+            for name in ("rbwf", "rbfaithful", "swf", "agrees", "agreeshead"):
+                ok = bool(flags) and all(f.get(name) == "1" for f in flags)
+                case.tags = case.tags + (f"hyp:{name}:" + ("holds" if ok else "fails"),)
+        except Exception:
+            case.tags = case.tags + ("hyp:not-evaluated",)
     else:
         case.tags = case.tags + ("unmodelled",)
     if any(not st.get("twin_ok") for st in obs["steps"]):
@@ -235,12 +411,12 @@ def _norm(s):
 
 
 def _parse_added(s):
-    m = re.match(r"D\[(.*?)\] V\[(.*)\] G=(\w+)$", s)
+    m = re.match(r"D\[(.*?)\] V\[(.*)\] G=(\w+) L\[(.*?)\]$", s)
     if not m:
         return None
     dims = sorted(x for x in m.group(1).split(";") if x)
     vs = sorted(x for x in m.group(2).split(";") if x)
-    return dims, vs, m.group(3)
+    return dims, vs, m.group(3) + " L=" + m.group(4)
 
 
 def _coords_sorted(v):
@@ -289,8 +465,8 @@ def _agree_one(I, M):
 
 
 def agree(case):
-    """The implementation's view must be the model's prediction for the patched code or for the code
-    with some of the proposed patches absent (the driver prints every distinct prediction)."""
+    """The implementation's view must be the model's prediction for the code of /repo HEAD with or without
+    the pending proposed patches (the driver prints every distinct prediction)."""
     if case.model_out is None:
         return True
     I = case.impl_out.split(" || ")
@@ -403,5 +579,7 @@ def shrink(case, run):
 
 
 def extra_coverage(run):
-    return dict(model_variants="the driver prints the prediction of the patched code and of every combination of absent patches; "
-                "agreement with any of them counts (the oracle alone decides whether the property holds)")
+    return dict(model_variants="the driver prints the prediction of the code with the pending proposed patch C17-append-dry-run-names "
+                "and without it; agreement with either counts. The earlier C17 repairs (and d714c80, 52d4f19) are in /repo HEAD and are "
+                "no longer alternatives: the implementation must agree with the model that has them (the oracle alone decides whether "
+                "the property holds)")
